@@ -50,6 +50,10 @@ Definition mpz_root (a n : Z) : Z * bool :=
 
 Definition Integer_one : Z := 1.
 
+(* what a call does: returns a value, raises a C++ exception, or does not return (a loop of givaro's own that never meets its exit
+   condition; in the model: the fuel of the loop runs out).  Only the loops of givaro's own (logp, pp) need it. *)
+Inductive outcome : Type := Ret (z : Z) | Throws | NoReturn.
+
 (* ------------------------------------------------------------------ gmp++_int_pow.C *)
 (*@ pow3_u64 | src/kernel/gmp++/gmp++_int_pow.C | Integer& pow(Integer& Res, const Integer& n, const uint64_t p) | f7c33e9fac0a *)
 Definition pow3_u64 (n p : Z) : Z := mpz_pow_ui n p.
@@ -154,13 +158,28 @@ Fixpoint logp_down (a puiss : Z) (pows : list Z) (res : Z) : Z :=
   | q :: rest => let sq := opMul_I puiss q in
                  if opLe_I sq a then logp_down a sq rest (res + 2 ^ Z.of_nat (List.length rest)) else logp_down a puiss rest res
   end.
+(* the do-while loop as it is: the exit test after every squaring; NoReturn (None) when the fuel is used up with the test still true *)
+Fixpoint logp_up_o (fuel : nat) (a puiss : Z) (pows : list Z) : option (list Z) :=
+  let pows1 := puiss :: pows in
+  let puiss1 := opMulEq_I puiss puiss in
+  if opLe_I puiss1 a then match fuel with O => None | S f => logp_up_o f a puiss1 pows1 end else Some pows1.
 (*@ logp | src/kernel/gmp++/gmp++_int_misc.C | int64_t logp(const Integer& a, const Integer& p) | 967cc5314ebd *)
+Definition logp_o (a p : Z) : outcome :=
+  if opLt_I a p then Ret 0 else
+  match logp_up_o (Z.to_nat (Z.log2 a)) a (ctor_copy p) nil with
+  | None => NoReturn
+  | Some nil => Ret 0
+  | Some (puiss :: pows) => Ret (logp_down a puiss pows (2 ^ Z.of_nat (List.length pows)))
+  end.
+(* total companion used in the proofs (= logp_o wherever that returns: ProofsLoops.logp_o_ret) *)
 Definition logp (a p : Z) : Z :=
   if opLt_I a p then 0 else
   match logp_up (Z.to_nat (Z.log2 a)) a (ctor_copy p) nil with
   | nil => 0
   | puiss :: pows => logp_down a puiss pows (2 ^ Z.of_nat (List.length pows))
   end.
+(* the body after frag/C01.fix-6.diff: a base below 2 is rejected (`p < 2` is Integer::operator<(int32_t)) *)
+Definition logp_fixed_o (a p : Z) : outcome := if opLt_i32 p 2 then Throws else logp_o a p.
 
 (* ------------------------------------------------------------------ gmp++_int_gcd.C: pp(P,Q), the part of P prime to Q (a loop of givaro's own).
    operator/ (C02's subject) is the truncated quotient; every division here is exact.  fuel = bit length of P. *)
@@ -169,8 +188,20 @@ Fixpoint pp_loop (fuel : nat) (U V : Z) : Z :=
   | O => U
   | S f => if opNe_I V Integer_one then let U1 := Z.quot U V in pp_loop f U1 (gcd_v U1 V) else U
   end.
+(* the while loop as it is: NoReturn when the fuel is used up with `V != 1` still true *)
+Fixpoint pp_loop_o (fuel : nat) (U V : Z) : outcome :=
+  match fuel with
+  | O => NoReturn
+  | S f => if opNe_I V Integer_one then let U1 := Z.quot U V in pp_loop_o f U1 (gcd_v U1 V) else Ret U
+  end.
+Definition pp_fuel (P : Z) : nat := S (S (Z.to_nat (Z.log2 (Z.abs P)))).
 (*@ pp | src/kernel/gmp++/gmp++_int_gcd.C | Integer pp( const Integer& P, const Integer& Q ) | ac2e1184027a *)
+Definition pp_o (P Q : Z) : outcome := pp_loop_o (pp_fuel P) (ctor_copy P) (gcd_v P Q).
+(* total companion used in the proofs (= pp_o for P <> 0: ProofsLoops.pp_o_ret) *)
 Definition pp (P Q : Z) : Z := pp_loop (S (Z.to_nat (Z.log2 (Z.abs P)))) (ctor_copy P) (gcd_v P Q).
+(* the body after frag/C01.fix-5.diff: P = 0 returns 0 before the loop *)
+Definition pp_fixed_o (P Q : Z) : outcome :=
+  let U := ctor_copy P in let V := gcd_v P Q in if isZero_I U then Ret U else pp_loop_o (pp_fuel P) U V.
 
 (* ------------------------------------------------------------------ givinteger.h: ZRing<Integer> wrappers with a body of their own *)
 (*@ dom_pow_i64 | src/kernel/integer/givinteger.h | Rep& pow(Rep& r, const Rep& n, const int64_t l) const | a7c9a23f4f70 *)
@@ -190,9 +221,10 @@ Definition dom_gcdin (g a : Z) : Z := let tmp := ctor_copy g in gcd3 tmp a.
 (*@ dom_lcmin | src/kernel/integer/givinteger.h | Rep& lcmin( Rep& l, const Rep& a) const | 4ead2aa3ec75 *)
 Definition dom_lcmin (l a : Z) : Z := let tmp := ctor_copy l in lcm3 tmp a.
 (* Integer::div(q,a,g) is C02's subject: the truncated quotient *)
-(*@ dom_dxgcd | src/kernel/integer/givinteger.h | Element &dxgcd(Element &g, Element &s, Element &t, Element &u, Element &v, const Element &a, const Element &b) const | 9afac282cbc5 *)
+(*@ dom_dxgcd | src/kernel/integer/givinteger.h | Element &dxgcd(Element &g, Element &s, Element &t, Element &u, Element &v, const Element &a, const Element &b) const | 9d60e4b97012 *)
 Definition dom_dxgcd (a b : Z) : Z * Z * Z * Z * Z :=
-  match gcdext5 a b with (g, s, t) => (g, s, t, Z.quot a g, Z.quot b g) end.
+  let aa := ctor_copy a in let bb := ctor_copy b in      (* /repo 1b66770: the outputs may be the same objects as a or b *)
+  match gcdext5 aa bb with (g, s, t) => (g, s, t, Z.quot aa g, Z.quot bb g) end.
 (* inv / invin in Z: defined on the units only (throws otherwise) *)
 (*@ dom_inv_unit | src/kernel/integer/givinteger.h | Rep& inv(Rep& u, const Rep& a) const | c4829a9d778e *)
 Definition dom_inv_unit (u a : Z) : option Z := if dom_isUnit a then Some (assign u a) else None.
